@@ -276,6 +276,22 @@ pub fn run(ctx: &Ctx) {
         "group",
     );
 
+    // ---- A0b: the rule-only tokens `@` and `;` (metadata items) are not derivable by the expression grammar
+    let rule_only: Vec<&str> = vec![
+        "@k: i1; x", "@k: [i1]; @j: \"s\"; x + y", "@name: \"n\"; x", "x;", "x; y", "@x", "a @ b", "@k: i1;", "; x", "@ k : i1 ; @ j : i2 ; if a then b else c",
+        "[@k: i1; x]", "f(@k: i1; x)",
+    ];
+    ctx.list(
+        "rule-only-tokens",
+        &rule_only,
+        |t, acc| {
+            acc.case("rule-only", true, || t.to_string());
+            check_text_against(t, crate::model::parse::parse_expr(t))
+        },
+        |t| json!({"source_text": t}),
+        "text",
+    );
+
     let alpha = alphabet();
     let n = alpha.len() as u64;
 
